@@ -475,6 +475,13 @@ class Norm:
         if isinstance(e, ast.Compare) and len(e.ops) == 1:
             op = e.ops[0]
             l, r = e.left, e.comparators[0]
+            # np.count_nonzero(x) == 0  <=>  all(x == 0)   (NaN counts as non-zero on both sides);  != 0 / > 0  <=>  any(x != 0)
+            for a_, b_ in ((l, r), (r, l)):
+                if isinstance(a_, ast.Call) and ast.unparse(a_.func) == "np.count_nonzero" and len(a_.args) == 1 and not a_.keywords \
+                        and isinstance(b_, ast.Constant) and b_.value == 0 and isinstance(op, (ast.Eq, ast.NotEq, ast.Gt)) and (a_ is l or not isinstance(op, ast.Gt)):
+                    allz = ast.Call(func=ast.Attribute(value=ast.Name(id="np", ctx=ast.Load()), attr="all", ctx=ast.Load()),
+                                    args=[ast.Compare(left=a_.args[0], ops=[ast.Eq()], comparators=[ast.Constant(value=0)])], keywords=[])
+                    return self.b(allz, neg != (not isinstance(op, ast.Eq)), integer)
             if isinstance(op, (ast.In, ast.NotIn)):
                 n = isinstance(op, ast.NotIn) != neg
                 return ("notin" if n else "in", self.key(l), self.key(r))
